@@ -196,8 +196,8 @@ theorem siteInv_install {s : Site} (hi : SiteInv s) {r : Room} {rr : RoomRow} (h
       exact hi.covered rid x hx
 
 /-- **local room mutation preserves the invariant** -/
-theorem siteInv_mutate {s s' : Site} (hi : SiteInv s) {caller : Key} {n : Nat} {m : MutSpec}
-    (h : s.mutate caller n m = .ok s') : SiteInv s' := by
+theorem siteInv_mutate {df : Defects} {s s' : Site} (hi : SiteInv s) {caller : Key} {n : Nat} {m : MutSpec}
+    (h : s.mutate df caller n m = .ok s') : SiteInv s' := by
   unfold Site.mutate at h
   split at h
   · cases h
